@@ -9,7 +9,7 @@
      - evaluates float / string literals through the constant pool of the running program (`pl`:
        the constants with their run-time values; a lookup by `const_eqb` like add_constant's),
      - evaluates array literals, indexing, index assignment and builtin calls with the value-level
-       functions of part H (which are the machine's own, lifted).
+       functions of part H1 (which are the machine's own, lifted).
    The constant pool may now grow by any constant (part C: integers only).
    The statements are those of part C with `f2he` for `f2e`; the proofs of the control-flow
    constructs are the proofs of part C transported to the new definitions. *)
@@ -60,7 +60,7 @@ Definition hlift_p (m : hst) (r : outcome val) : hres val :=
   | Fault f => HFault f (hs_out m)
   | OutOfFuel => HFuel
   end.
-(* the value-level functions of part H *)
+(* the value-level functions of part H1 *)
 Definition hlift_o (m : hst) (r : outcome (val * hst)) : hres val :=
   match r with
   | Ok x => HOk (fst x) (snd x)
@@ -2413,3 +2413,7 @@ Section SimH.
   Theorem helsim_all : forall l, helsim l.
   Proof. intros l. apply helsim_of_forall. apply Forall_forall. intros e _. apply (proj1 hsim_all). Qed.
 End SimH.
+
+Print Assumptions hsim_all.
+Print Assumptions hlsim_all.
+Print Assumptions helsim_all.
